@@ -4,6 +4,21 @@
 mod c01;
 mod c01_typed;
 mod c02;
+mod c05;
+mod c06;
+mod c15;
+mod c16;
+mod cfw;
+mod c17;
+mod c18;
+mod c19;
+mod c19_nodes;
+mod c19_ops;
+mod c19_texts;
+mod isolate;
+mod c20;
+mod c20_enum;
+mod c20_gen;
 mod envs;
 mod explore;
 mod gen;
@@ -20,6 +35,20 @@ fn main() {
 	if args.len() < 2 {
 		eprintln!("usage: vcheck <PROPERTY> --tier quick|thorough [--replay FILE]");
 		std::process::exit(2);
+	}
+	if args[1] == "worker" {
+		// worker sub-processes: `vcheck worker <PROPERTY> …` (cases that may abort the process)
+		subj::quiet_panics();
+		let code = match args.get(2).map(|s| s.as_str()) {
+			Some("C05") => c05::worker(&args[3..]),
+			Some("C17") => c17::worker(&args[3..]),
+			Some("C19") => c19::worker_main(&args[3..]),
+			other => {
+				eprintln!("MACHINERY: no worker for {other:?}");
+				2
+			}
+		};
+		std::process::exit(code);
 	}
 	let prop = args[1].clone();
 	let mut tier = std::env::var("VERIF_TIER").unwrap_or_else(|_| "quick".to_owned());
@@ -55,6 +84,14 @@ fn main() {
 		let code = match prop.as_str() {
 			"C01" => c01::replay(&v),
 			"C02" => c02::replay(&v),
+			"C05" => c05::replay(&v),
+			"C06" => c06::replay(&v),
+			"C15" => c15::replay(&v),
+			"C16" => c16::replay(&v),
+			"C17" => c17::replay(&v),
+			"C18" => c18::replay(&v),
+			"C19" => c19::replay(&v),
+			"C20" => c20::replay(&v),
 			_ => {
 				eprintln!("no replay for {prop}");
 				2
@@ -66,6 +103,14 @@ fn main() {
 	match prop.as_str() {
 		"C01" => c01::run(&mut rep),
 		"C02" => c02::run(&mut rep),
+		"C05" => c05::run(&mut rep),
+		"C06" => c06::run(&mut rep),
+		"C15" => c15::run(&mut rep),
+		"C16" => c16::run(&mut rep),
+		"C17" => c17::run(&mut rep),
+		"C18" => c18::run(&mut rep),
+		"C19" => c19::run(&mut rep),
+		"C20" => c20::run(&mut rep),
 		_ => {
 			eprintln!("unknown property {prop}");
 			std::process::exit(2);
